@@ -614,8 +614,11 @@ class G:
       lines += body or ["    pass"]
     else:
       info["init_params"] = list(base_infos[0]["init_params"])
+    used_m = set()
     for _ in range(self.i(0, 2)):
-      mname = self.pick(["m1", "m2", "get", "calc"])
+      mname = self.pick([m for m in ["m1", "m2", "get", "calc"]
+                         if m not in used_m])
+      used_m.add(mname)
       style = self.pick(["method", "method", "method", "property", "static",
                          "class"])
       if style == "method":
